@@ -179,9 +179,9 @@ def judge_cone_result(c, ctx, pr, sol, opts, prefix, qp=False, external=None, ch
         J.field_eq(sol, "dual objective", R["dcost"], max(R["dcost_scale"], 1e-300))
         # the native solvers report gap = lambda'lambda (scaled point), equal to <s,z> only as
         # accurately as the Nesterov-Todd scaling of nearly complementary iterates: observed
-        # relative differences up to 7e-4 on the unchanged tree -> relative allowance 1e-2
+        # relative differences up to 1.2e-2 on the unchanged tree (user dual start, thorough tier) -> relative allowance 1e-1
         # (a realistic defect - wrong 1/tau power, wrong vector - is off by O(1))
-        J.field_eq(sol, "gap", R["gap"], max(R["gap_scale"], 1e-300), rel=1e-2)
+        J.field_eq(sol, "gap", R["gap"], max(R["gap_scale"], 1e-300), rel=1e-1)
         J.field_eq(sol, "primal infeasibility", R["pres"], max(R["pres_scale"], 1e-300))
         J.field_eq(sol, "dual infeasibility", R["dres"], max(R["dres_scale"], 1e-300))
         J.field_eq(sol, "primal slack", -R["ts"], max(cone.snrm2(s, dims), 1e-300) if N else 1.0)
